@@ -56,16 +56,22 @@ def sortedStrict : List (Nat × Nat) → Bool
   | _ => true
 
 /-- C37 on the ring the real newRing built. -/
-def monRing (s : St) (eps : List Endpoint) (minSize maxSize : Nat) (impl : String) : String :=
+def monRing (s : St) (eps : List Endpoint) (minSize maxSize : Nat) (impl : String) (asFloatPort : Bool) : String :=
   match kv impl "n" >>= String.toNat?, kv impl "counts" >>= natList, kv impl "items" >>= parseItems with
   | some n, some counts, some items =>
     if weightSum eps ≠ eps.foldl (fun a e => a + e.weight) 0 || eps.any (·.weight = 0) then "-" else
     if items.length ≠ n || counts.length ≠ eps.length || counts.foldl (· + ·) 0 ≠ n then "VIOL inconsistent ring description"
-    else if n = maxSize + 1 then s!"VIOL ring has {n} entries = max_ring_size + 1"
+    else if n = maxSize + 1 && asFloatPort then
+      -- exactly the ring the float64 port of the unchanged newRing produces (known finding F14); any other
+      -- way of exceeding the bound gets the generic verdict below
+      s!"VIOL ring has {n} entries = max_ring_size + 1 (float64 accumulation of targetHashes, as the port of the unchanged code predicts)"
     else if n > maxSize then s!"VIOL ring has {n} entries, max_ring_size is {maxSize}"
     else if n < minSize then s!"VIOL ring has {n} entries, min_ring_size is {minSize}"
     else if !sortedStrict items then "VIOL ring is not sorted by hash"
-    else if !proportional eps counts n then "VIOL entries per endpoint are not proportional to the normalized weights up to rounding"
+    else if !proportional eps counts n then
+      (if asFloatPort then
+        "VIOL entries per endpoint are not proportional to the normalized weights up to rounding (float64 rounding of targetHashes at an exact boundary, as the port of the unchanged code predicts)"
+       else "VIOL entries per endpoint are not proportional to the normalized weights up to rounding")
     else
       let key := s!"{minSize} {maxSize} " ++ " ".intercalate (eps.map fun e => s!"{e.hashKey}:{e.weight}")
       if key = s.prevKey && showItems items ≠ s.prevItems then "VIOL the ring for the same endpoint set differs (depends on update order)"
@@ -145,7 +151,7 @@ def step : Step St := fun s fs impl =>
       let items := sortByHash (entriesOf hashOf counts 0)
       let out := if short then "hash-table-too-short" else
         s!"n={items.length} counts={showNatList counts} items={showItems (items.map fun e => (e.hash, e.ep))}"
-      let verdict := monRing s eps minSize maxSize impl
+      let verdict := monRing s eps minSize maxSize impl (out == impl)
       let implItems := (kv impl "items" >>= parseItems).getD []
       let key := s!"{minSize} {maxSize} " ++ " ".intercalate (eps.map fun e => s!"{e.hashKey}:{e.weight}")
       ({ eps := eps, minSize := minSize, maxSize := maxSize, items := items, implItems := implItems,
